@@ -289,3 +289,30 @@ def domain_text(pid, tier):
 
 def bound_text(pid, tier):
     return BOUNDS.get(pid, '')
+
+
+# ---------------------------------------------------------------------------------------------
+# plug-ins: worker/gens_<tag>.py may define GENS, BOUNDS and failure_class(target, inp, detail) -> str | None
+import glob as _glob
+import importlib as _importlib
+import os as _os
+_PLUG = []
+for _p in sorted(_glob.glob(_os.path.join(_os.path.dirname(_os.path.abspath(__file__)), 'gens_*.py'))):
+    _m = _importlib.import_module(_os.path.basename(_p)[:-3])
+    _PLUG.append(_m)
+    for _k, _v in getattr(_m, 'GENS', {}).items():
+        GENS.setdefault(_k, [])
+        GENS[_k] = GENS[_k] + list(_v)
+    for _k, _v in getattr(_m, 'BOUNDS', {}).items():
+        BOUNDS[_k] = (BOUNDS[_k] + ' | ' + _v) if _k in BOUNDS else _v
+_base_failure_class = failure_class
+
+
+def failure_class(target, inp, detail):
+    for _m in _PLUG:
+        f = getattr(_m, 'failure_class', None)
+        if f is not None:
+            r = f(target, inp, detail)
+            if r:
+                return r
+    return _base_failure_class(target, inp, detail)
